@@ -490,23 +490,33 @@ class Interp:
             s.frames = s.frames[:depth]
             s.stack = s.stack[:-1]
             if kind == "next":
-                self.emit_exit(s, info, node)
+                self.emit_exit(s, info, node, Const(None))
                 outs.append(("val", s, Const(None)))
             elif kind == "return":
-                self.emit_exit(s, info, node)
+                self.emit_exit(s, info, node, v)
                 outs.append(("val", s, v))
             elif kind == "raise":
                 outs.append((kind, s, v))
             else:
                 raise AnalysisError(f"{kind} outside loop in {info.qual}")
-        return self.dedupe(outs)
+        return self.dedupe(outs, merge_facts=self.is_pure_helper(info))
 
-    def emit_exit(self, s, info, node):
+    PURE_MODULES = ("validation", "const", "util")
+    PURE_FUNCS = ("message:Message.validate", "message:Message.__repr__", "sensor:ChildSensor.get_schema", "sensor:ChildSensor.validate", "sensor:Sensor.validate_child_state")
+
+    def is_pure_helper(self, info) -> bool:
+        """Helpers without effects on gateway state: their internal case splits are joined at return."""
+        return info.module.name in self.PURE_MODULES or info.module.name.startswith("const_") or info.qual in self.PURE_FUNCS
+
+    def emit_exit(self, s, info, node, value=None):
         func, line = (s.frames[-1]["__func__"].qual, getattr(node, "lineno", 0)) if s.frames else ("<root>", 0)
-        s.emit(Event("exit", info.qual, None, (), None, func, line, s.stack))
+        s.emit(Event("exit", info.qual, None, (value,) if value is not None else (), None, func, line, s.stack, s.facts))
 
-    def dedupe(self, outs: List[Outcome]) -> List[Outcome]:
-        """Join outcomes that differ only in their must-facts (facts are intersected)."""
+    def dedupe(self, outs: List[Outcome], merge_facts: bool = False) -> List[Outcome]:
+        """Join outcomes that differ only in *unprotected* must-facts (facts about temporaries
+        and message fields are intersected). Protected facts - those about long-lived gateway
+        state and the path-identity facts (validated, dispatch, canonical) - are part of the
+        key, also at the time of every event (they are hashed into the event trace)."""
         if len(outs) < 2:
             return outs
         groups: Dict[object, int] = {}
@@ -520,6 +530,7 @@ class Interp:
                 len(s.events),
                 tuple(h.key() for h in s.handling),
                 tuple(frozenset((k, x.key()) for k, x in f.items() if isinstance(x, V)) for f in s.frames),
+                s.pfacts,
             )
             if fp in groups:
                 i = groups[fp]
@@ -540,7 +551,7 @@ class Interp:
             if info.is_async:
                 return [("val", st, FutureV(fn, args, kwargs, "coro"))]
             if info.qual in self.inline_skip:
-                self.emit(st, "opaque", info.qual, node, args=args)
+                self.emit(st, "opaque", info.qual, node, args=([fn.recv] + list(args)) if isinstance(fn, BoundV) else args)
                 return [("val", st, Unknown(label=f"opaque:{info.qual}:{getattr(node,'lineno',0)}"))]
             return self.call_func(st, fn, args, kwargs, node)
         if isinstance(fn, ClassV):
@@ -1285,7 +1296,7 @@ class Interp:
             outs.append(self.raise_(s.copy(), asyncio.CancelledError, node, "await may be cancelled"))
             if isinstance(v, FutureV):
                 self.emit(s, "await", v.kind, node, recv=v.fn, args=v.args)
-                if isinstance(v.fn, (FuncV, BoundV)):
+                if isinstance(v.fn, (FuncV, BoundV)) and v.kind == "coro":
                     outs.extend(self.call_func(s, v.fn, list(v.args), v.kwargs, node))
                 else:
                     outs.extend(self.call(s, v.fn, list(v.args), v.kwargs, node))
